@@ -25,3 +25,107 @@ Definition query_handlers : list string :=
 
 Definition site_known (s : site) : bool :=
   String.eqb (site_dir s) "x/evm/keeper" && negb (existsb (String.eqb (site_fn s)) query_handlers).
+
+(** Hand-maintained classification of the state that lives on the singletons shared by DeliverTx and requests.
+    A field / variable that is not listed (a new cache, flag, counter, …) breaks C09_shared_mutable_state_known. *)
+Inductive sclass :=
+| Immutable    (* assigned at construction / package initialisation only *)
+| Guarded      (* Keeper.Bank.StateDB: every access behind ctx.IsCheckTx (obligation C09_every_access_guarded) *)
+| StoreBacked  (* collections descriptor: the state itself lives in the multistore of the calling sdk.Context *)
+| Registry     (* written by AddPrecompiles while the app is constructed, read-only afterwards *)
+| PerCall.     (* value created per call / per request, never stored on a singleton *)
+
+Definition field_table : list (string * string * string * string * sclass) := [
+  ("x/evm/keeper", "ERC20BigInt", "Value", "*big.Int", PerCall);
+  ("x/evm/keeper", "ERC20Bool", "Value", "bool", PerCall);
+  ("x/evm/keeper", "ERC20Bytes32", "Value", "[32]byte", PerCall);
+  ("x/evm/keeper", "ERC20Metadata", "Decimals", "uint8", PerCall);
+  ("x/evm/keeper", "ERC20Metadata", "Name", "string", PerCall);
+  ("x/evm/keeper", "ERC20Metadata", "Symbol", "string", PerCall);
+  ("x/evm/keeper", "ERC20String", "Value", "string", PerCall);
+  ("x/evm/keeper", "ERC20Uint8", "Value", "uint8", PerCall);
+  ("x/evm/keeper", "EvmState", "AccState", "collections.Map[AccStatePrimaryKey,[]byte,]", StoreBacked);
+  ("x/evm/keeper", "EvmState", "BlockBloom", "collections.ItemTransient[[]byte]", StoreBacked);
+  ("x/evm/keeper", "EvmState", "BlockLogSize", "collections.ItemTransient[uint64]", StoreBacked);
+  ("x/evm/keeper", "EvmState", "BlockTxIndex", "collections.ItemTransient[uint64]", StoreBacked);
+  ("x/evm/keeper", "EvmState", "ContractBytecode", "collections.Map[CodeHash,[]byte]", StoreBacked);
+  ("x/evm/keeper", "EvmState", "ModuleParams", "collections.Item[evm.Params]", StoreBacked);
+  ("x/evm/keeper", "FunTokenState", "<embedded>", "collections.IndexedMap[[]byte,evm.FunToken,IndexesFunToken]", StoreBacked);
+  ("x/evm/keeper", "IndexesFunToken", "BankDenom", "collections.MultiIndex[string,[]byte,evm.FunToken]", StoreBacked);
+  ("x/evm/keeper", "IndexesFunToken", "ERC20Addr", "collections.MultiIndex[gethcommon.Address,[]byte,evm.FunToken]", StoreBacked);
+  ("x/evm/keeper", "Keeper", "Bank", "*NibiruBankKeeper", Immutable);
+  ("x/evm/keeper", "Keeper", "EvmState", "EvmState", StoreBacked);
+  ("x/evm/keeper", "Keeper", "FunTokens", "FunTokenState", StoreBacked);
+  ("x/evm/keeper", "Keeper", "accountKeeper", "evm.AccountKeeper", Immutable);
+  ("x/evm/keeper", "Keeper", "authority", "sdk.AccAddress", Immutable);
+  ("x/evm/keeper", "Keeper", "cdc", "codec.BinaryCodec", Immutable);
+  ("x/evm/keeper", "Keeper", "precompiles", "omap.SortedMap[gethcommon.Address,vm.PrecompiledContract]", Registry);
+  ("x/evm/keeper", "Keeper", "stakingKeeper", "evm.StakingKeeper", Immutable);
+  ("x/evm/keeper", "Keeper", "storeKey", "storetypes.StoreKey", Immutable);
+  ("x/evm/keeper", "Keeper", "tracer", "string", Immutable);
+  ("x/evm/keeper", "Keeper", "transientKey", "storetypes.StoreKey", Immutable);
+  ("x/evm/keeper", "NibiruBankKeeper", "<embedded>", "bankkeeper.BaseKeeper", Immutable);
+  ("x/evm/keeper", "NibiruBankKeeper", "StateDB", "*statedb.StateDB", Guarded);
+  ("x/evm/keeper", "erc20Calls", "<embedded>", "*Keeper", PerCall);
+  ("x/evm/keeper", "erc20Calls", "ABI", "*gethabi.ABI", PerCall);
+  ("x/evm/precompile", "OnRunStartResult", "Args", "[]any", PerCall);
+  ("x/evm/precompile", "OnRunStartResult", "CacheCtx", "sdk.Context", PerCall);
+  ("x/evm/precompile", "OnRunStartResult", "Method", "*gethabi.Method", PerCall);
+  ("x/evm/precompile", "OnRunStartResult", "PrecompileJournalEntry", "statedb.PrecompileCalled", PerCall);
+  ("x/evm/precompile", "OnRunStartResult", "StateDB", "*statedb.StateDB", PerCall);
+  ("x/evm/precompile", "WasmBankCoin", "Amount", "*big.Int", PerCall);
+  ("x/evm/precompile", "WasmBankCoin", "Denom", "string", PerCall);
+  ("x/evm/precompile", "Wasm", "<embedded>", "*wasmkeeper.PermissionedKeeper", Immutable);
+  ("x/evm/precompile", "Wasm", "<embedded>", "wasmkeeper.Keeper", Immutable);
+  ("x/evm/precompile", "precompileFunToken", "evmKeeper", "*evmkeeper.Keeper", Immutable);
+  ("x/evm/precompile", "precompileOracle", "oracleKeeper", "oraclekeeper.Keeper", Immutable);
+  ("x/evm/precompile", "precompileWasm", "<embedded>", "*evmkeeper.Keeper", Immutable);
+  ("x/evm/precompile", "precompileWasm", "Wasm", "Wasm", Immutable)
+].
+
+(* directories whose package-level variables are compiled-contract artefacts, CLI or test helpers *)
+Definition artefact_dirs : list string := ["x/evm/embeds"; "x/evm/embeds/gen-abi"; "x/evm/evmtest"; "x/evm/cli"].
+
+(* all other package-level variables of x/evm: constants in disguise (addresses, registered errors, codecs, big.Int constants, the isMutation table) *)
+Definition var_table : list (string * string * string) := [
+  ("x/evm/precompile", "PrecompileAddr_FunToken", "");
+  ("x/evm/precompile", "PrecompileAddr_Oracle", "");
+  ("x/evm/precompile", "PrecompileAddr_Wasm", "");
+  ("x/evm/precompile", "isMutation", "map[PrecompileMethod]bool");
+  ("x/evm/statedb", "emptyCodeHash", "");
+  ("x/evm", "AminoCdc", "");
+  ("x/evm", "BASE_FEE_MICRONIBI", "");
+  ("x/evm", "BASE_FEE_WEI", "");
+  ("x/evm", "DefaultPriorityReduction", "");
+  ("x/evm", "EVM_MODULE_ADDRESS", "gethcommon.Address");
+  ("x/evm", "EVM_MODULE_ADDRESS_NIBI", "sdk.AccAddress");
+  ("x/evm", "EmptyCodeHash", "");
+  ("x/evm", "ErrInvalidAccount", "");
+  ("x/evm", "ErrInvalidAmount", "");
+  ("x/evm", "ErrInvalidBaseFee", "");
+  ("x/evm", "ErrInvalidGasCap", "");
+  ("x/evm", "ErrInvalidGasFee", "");
+  ("x/evm", "ErrInvalidGasPrice", "");
+  ("x/evm", "ErrInvalidRefund", "");
+  ("x/evm", "ErrInvalidState", "");
+  ("x/evm", "ErrZeroAddress", "");
+  ("x/evm", "KeyPrefixBzAccState", "");
+  ("x/evm", "amino", "")
+].
+
+Definition str4_eqb (a b : string * string * string * string) : bool :=
+  let '(a1, a2, a3, a4) := a in let '(b1, b2, b3, b4) := b in
+  String.eqb a1 b1 && String.eqb a2 b2 && String.eqb a3 b3 && String.eqb a4 b4.
+Definition str3_eqb (a b : string * string * string) : bool :=
+  let '(a1, a2, a3) := a in let '(b1, b2, b3) := b in
+  String.eqb a1 b1 && String.eqb a2 b2 && String.eqb a3 b3.
+
+Definition field_known (f : string * string * string * string) : bool :=
+  existsb (fun e => str4_eqb f (fst e)) field_table.
+Definition var_known (v : string * string * string) : bool :=
+  existsb (String.eqb (fst (fst v))) artefact_dirs || existsb (str3_eqb v) var_table.
+
+(** the only class that is mutable at run time AND not confined to a context is [Guarded] *)
+Definition runtime_mutable (c : sclass) : bool := match c with Guarded => true | _ => false end.
+Definition guarded_fields : list (string * string * string * string) :=
+  map fst (filter (fun e => runtime_mutable (snd e)) field_table).
